@@ -105,9 +105,12 @@ def run(chk, replay=None):
     cfgs = [{"nl": 1, "limit": 4, "timeout": 2, "cleanup": 1}, {"nl": 1, "limit": 5, "timeout": 3, "cleanup": 2}, {"nl": 2, "limit": 6, "timeout": 2, "cleanup": 1},
             {"nl": 2, "limit": 7, "timeout": 2, "cleanup": 3}, {"nl": 1, "limit": 3, "timeout": 4, "cleanup": 1}, {"nl": 1, "limit": 100, "timeout": 4, "cleanup": 2},
             # a long timeout against a short scan period: the reaper must scan every cleanup_interval, not every channel_timeout
-            {"nl": 1, "limit": 4, "timeout": 7, "cleanup": 1}, {"nl": 1, "limit": 5, "timeout": 9, "cleanup": 2}]
+            {"nl": 1, "limit": 4, "timeout": 7, "cleanup": 1}, {"nl": 1, "limit": 5, "timeout": 9, "cleanup": 2},
+            # a short timeout against a long scan period: a connection idle for channel_timeout at a scan goes at that scan
+            # (not one scan later), and the limit is reached, left (by reaping) and reached again within one scan period
+            {"nl": 1, "limit": 3, "timeout": 1, "cleanup": 4}, {"nl": 1, "limit": 4, "timeout": 2, "cleanup": 6}, {"nl": 2, "limit": 3, "timeout": 1, "cleanup": 5}]
     n = 260 if chk.thorough else 40
-    jobs = [(c, chk.seed * 7 + i * 31 + j, rng.randint(14, 40) if c["timeout"] < 6 else rng.randint(40, 70)) for i, c in enumerate(cfgs) for j in range(n)]
+    jobs = [(c, chk.seed * 7 + i * 31 + j, rng.randint(14, 40) if max(c["timeout"], c["cleanup"]) < 4 else rng.randint(40, 70)) for i, c in enumerate(cfgs) for j in range(n)]
     results = pmap(gen_and_run, jobs, chunksize=8)
     traces, meta = [], {}
     for cfg, evs in results:
